@@ -1435,6 +1435,24 @@ pub fn c02_scan(ck: &mut Checker, sim: &mut Sim, when: &str) {
                             })
                         })
                         .unwrap_or(false);
+                // ... and, these scenarios having no reorg, on the proven (main) chain
+                let on_main = sim
+                    .world
+                    .tx_locs
+                    .get(&h)
+                    .map(|locs| {
+                        locs.iter().any(|(id, _)| {
+                            sim.world.blocks[*id].number() == number
+                                && sim.world.branches[0].ids.get(number as usize) == Some(id)
+                        })
+                    })
+                    .unwrap_or(false);
+                if ok && !on_main {
+                    findings.push((
+                        "stored_transaction_of_a_block_no_proven_header_commits_to",
+                        format!("transaction {:#x} stored at block {} index {} belongs to a side-branch block nobody proved", h, number, index),
+                    ));
+                }
                 if !ok {
                     findings.push((
                         "stored_transaction_not_in_any_real_block",
